@@ -21,7 +21,7 @@ RULE = ("(a) `nm` over the freshly compiled C library objects (blake3.c with and
         "the statics of the verification hooks are listed separately and a hooks-off build of the crate must show "
         "exactly the same set without them.  (b) one fresh process per case starts 2..16 threads on a barrier with the "
         "detection cache untouched; every thread runs a complete history on its own instances (hasher histories, XOF "
-        "reader sequences, update_rayon, direct kernel calls; C: CH histories with mask `detect` and direct kernels); "
+        "reader sequences, update_rayon, update_reader with scripted readers, direct kernel calls; C: CH histories with mask `detect` and direct kernels); "
         "each thread's result line must equal the sequential model result of the same sub-case.  Every fourth case all "
         "threads race the very first detection on the same short input; the C builds add 160 (asm) + 40 (intrinsics) "
         "fresh processes (thorough 600 + 200) whose 4/8/16 threads all hash one large input with thread starts staggered by "
@@ -201,6 +201,12 @@ def rs_pool(rng, tier):
     for _ in range(6 if tier == "thorough" else 3):
         b = bspec(rng, rng.choice([1025, 40000, 140000]))
         pool.append(("H hash detect uy:0:%s c:0 f:0" % b, "H hash detect u:0:%s c:0 f:0" % b))
+    # the adapters: update_reader (copy_wide and its staging buffer) on different data in every thread
+    for _ in range(8 if tier == "thorough" else 5):
+        n = rng.choice([70000, 200000, 400000])
+        script = ",".join(rng.choice(["d65536", "d65536", "d1000", "d40000", "i", "d7"]) for _ in range(rng.range(0, 6)))
+        b = bspec(rng, n)
+        pool.append(("H hash detect ur:0:%s:%s c:0 f:0" % (b, script), "H hash detect ur:0:%s:%s c:0 f:0" % (b, script)))
     ka = [("kcip", a) for a in kern.gen_compress(rng, 1)[::60]] + [("kxof", a) for a in kern.gen_compress(rng, 1)[::80]]
     ka += [("khm", a) for a in kern.gen_hash_many(rng, 1, small=True)[::45]]
     ka += [("kxm", a) for a in kern.gen_xof_many(rng, 1)[::40]]
